@@ -178,43 +178,159 @@ theorem normSeq_eq (s : Str) : normSeq s = normalise s := by
   unfold normSeq normalise
   apply List.map_congr_left
   intro c _
-  simp [normChar, Parser.upperChar, Notation.upperChar]
+  rfl
 
 theorem bool_truthy (b : Bool) : (Value.bool b).truthy = b := by cases b <;> rfl
 
 theorem int_not_gt (n : Nat) : (Value.int n).gtNat n = false := by simp [Value.gtNat, Value.den, Value.numer]
 
-theorem construct_eval (cls : Cls) (sq : Str) (name : Option Str) (kw : Params) (e o ind : Value) (rw aw fa : Bool)
+theorem countN_nonN (s : Str) : s.length - countN s = nonN s := rfl
+
+theorem construct_eval (cls : Cls) (sq : Str) (name : Option Str) (kw : Params) (e o ind : Value) (rw aw fa anch : Bool)
     (he : Params.get kw .maxErrors = some e) (ho : Params.get kw .minOverlap = some o) (hi : Params.get kw .indels = some ind)
     (hrw : Params.get kw .readWildcards = some (.bool rw)) (haw : Params.get kw .adapterWildcards = some (.bool aw))
     (hfa : kw.flag .forceAnywhere = fa)
     (hbad : ∀ k, kwAllowed cls k = false → Params.get kw k = none)
+    (hanch : (cls = .prefix ∨ cls = .suffix) ↔ anch = true)
     (hsq : sq ≠ []) (hiu : (normSeq sq).all isIupac = true) (hoint : o.isFloat = false) :
     construct cls sq name kw =
-      (let s := normSeq sq
-       let n := s.length - countN s
-       let divisor := if e.ge1 = true ∧ n ≠ 0 then n else 1
-       let o1 := if cls = .prefix ∨ cls = .suffix then .int s.length else if o.gtNat s.length = true then .int s.length else o
+      (let s := normalise sq
+       let n := nonN s
+       let divisor := if e.ge1 ∧ n ≠ 0 then n else 1
+       let o1 := if anch then .int s.length else if o.gtNat s.length then .int s.length else o
        let aw' := aw && !s.all isACGT
-       if aw' = true ∧ n = 0 then .error .onlyN
-       else if (cls = .prefix ∨ cls = .suffix) ∧ ind.truthy = false ∧ e.den * divisor < e.numer then .error .rateRange
+       if aw' ∧ n = 0 then .error .onlyN
+       else if anch ∧ ¬ ind.truthy ∧ e.den * divisor < e.numer then .error .rateRange
        else .ok ⟨cls, s, name, e, divisor, o1, ind, .bool rw, aw', fa⟩) := by
   have hne : normSeq sq ≠ [] := by simpa [normSeq] using hsq
   have hlen : (normSeq sq).length = sq.length := by simp [normSeq]
   unfold construct
   simp only [any_bad_false cls kw hbad, Bool.false_eq_true, if_false, he, ho, hi, hrw, haw, hfa, Option.getD_some, hne,
-    bool_truthy, hiu, not_true_eq_false, and_false]
-  by_cases hanch : cls = .prefix ∨ cls = .suffix
-  · simp only [hanch, if_true, true_and, ← hlen, int_not_gt, Bool.false_eq_true]
+    bool_truthy, hiu, not_true_eq_false, and_false, countN_nonN, hanch]
+  rw [← normSeq_eq]
+  by_cases ha : anch = true
+  · simp only [ha, if_true, true_and, ← hlen, int_not_gt, Bool.false_eq_true]
     by_cases hind : ind.truthy = true
     · simp [hind, Value.isFloat]
     · simp only [Bool.not_eq_true] at hind
       simp [hind]
-  · simp only [hanch, if_false, false_and]
+  · simp only [ha, if_false, false_and]
     have hfl : (if o.gtNat (normSeq sq).length = true then Value.int (normSeq sq).length else o).isFloat = false := by
       split
       · rfl
       · exact hoint
     simp [hfl]
+
+/-! ## not linked -/
+
+/-- the `search_parameters` dict holds exactly the settings `base` -/
+structure SPOK (sp : Params) (base : Base) : Prop where
+  e : Params.get sp .maxErrors = some base.e
+  o : Params.get sp .minOverlap = some base.o
+  oint : base.o.isFloat = false
+  indels : Params.get sp .indels = some base.indels
+  rw : Params.get sp .readWildcards = some (.bool base.readWildcards)
+  aw : Params.get sp .adapterWildcards = some (.bool base.adapterWildcards)
+  other : ∀ k, kwAllowed .anywhere k = false → Params.get sp k = none
+
+theorem optOr_eq (a b : Option Str) : Parser.optOr a b = Notation.optOr a b := by cases a <;> rfl
+
+theorem toKind_err {α : Type} {r : Except Err α} {e : Err} (h : r = .error e) (hk : e.isCmdline = true) :
+    toKind r = .error .cmdline := by
+  subst h; simp [toKind, kindOf, hk]
+
+theorem seq_iupac {p : Part} (hp : p.WF) : (normSeq (expandRuns p.runs)).all isIupac = true := by
+  rw [List.all_eq_true]
+  intro c hc
+  simp only [normSeq, List.mem_map] at hc
+  obtain ⟨x, hx, rfl⟩ := hc
+  exact all_mem (l := seqChars) (P := fun c => isIupac (normChar c)) (by decide) (expand_seqChars hp x hx)
+
+theorem getD_eq_match (x : Option Value) (d : Value) : (match x with | some v => some v | none => some d) = some (x.getD d) := by
+  cases x <;> rfl
+
+/-- **A rendered adapter that is not linked** is built as documented. -/
+theorem makeNotLinked_sem {p : Part} (hp : p.WF) {sp : Params} {base : Base} (hsp : SPOK sp base) (t : AType) (hname : Option Str) :
+    toKind (makeNotLinked p.render hname t sp) =
+      match meaningPart t false p base (Notation.optOr hname p.name) with
+      | .error k => .error k
+      | .ok (a, _) => .ok (.single a) := by
+  unfold meaningPart
+  by_cases hc : paramsConsistent p.params = true
+  case neg =>
+    obtain ⟨e, he, hk⟩ := parseASpec_err hp t (Or.inl (by simpa using hc))
+    have : makeNotLinked p.render hname t sp = .error e := by simp [makeNotLinked, he]
+    rw [toKind_err this hk]; simp [hc]
+  simp only [hc, Bool.not_true, Bool.false_eq_true, if_false]
+  cases hcls : classOf t p.restr (paramSem p.params).rightmost with
+  | none =>
+    obtain ⟨e, he, hk⟩ := parseASpec_err hp t (Or.inr (Or.inl hcls))
+    have : makeNotLinked p.render hname t sp = .error e := by simp [makeNotLinked, he]
+    rw [toKind_err this hk]
+  | some cls =>
+    simp only
+    by_cases ho : (paramSem p.params).o.isSome = true ∧ p.restr.anchored = true
+    · obtain ⟨e, he, hk⟩ := parseASpec_err hp t (Or.inr (Or.inr ho))
+      have : makeNotLinked p.render hname t sp = .error e := by simp [makeNotLinked, he]
+      rw [toKind_err this hk]; simp [ho]
+    simp only [ho, if_false]
+    obtain ⟨A, hA, hAn, hAr, hAs, hAt, hArm, hAg⟩ := parseASpec_ok hp t hc hcls ho
+    obtain ⟨hse, hso, hsi, hsr, hsa, hsrm⟩ := sem_fields p.params
+    obtain ⟨_, _, _, _, hclsEq, hanchIff, _, _⟩ := classOf_some hcls
+    have hAcls : A.cls = cls := by unfold ASpec.cls; rw [hAt, hAr, hArm]; exact hclsEq.symm
+    have hanyw : A.parameters.flag .anywhere = (paramSem p.params).anywhere := by
+      rw [hsa]; simp [Params.flag, hAg, aGet, postGet]
+    unfold makeNotLinked
+    simp only [hA, hAcls, hanyw]
+    -- the dict handed to the constructor
+    generalize hps : (if (paramSem p.params).anywhere = true ∧ (cls = .front ∨ cls = .back ∨ cls = .rightmostFront) then
+        A.parameters.erase .anywhere ++ [(Key.forceAnywhere, Value.bool true)] else A.parameters.erase .anywhere) = ps'
+    have hget : ∀ k, Params.get ps' k =
+        if (paramSem p.params).anywhere = true ∧ (cls = .front ∨ cls = .back ∨ cls = .rightmostFront) then
+          (match (if k = .anywhere then none else aGet (paramDict p.params) (expandRuns p.runs).length k) with
+           | some v => some v
+           | none => if k = .forceAnywhere then some (.bool true) else none)
+        else (if k = .anywhere then none else aGet (paramDict p.params) (expandRuns p.runs).length k) := by
+      intro k
+      rw [← hps]
+      split
+      · rw [Params.get_append, Params.get_erase, Params.get_singleton, hAg]
+        by_cases hk : k = .anywhere
+        · subst hk; simp
+        · simp only [hk, if_false]
+          cases aGet (paramDict p.params) (expandRuns p.runs).length k <;> simp [eq_comm]
+      · rw [Params.get_erase, hAg]
+    have hreq : Params.has ps' .required = (paramSem p.params).required.isSome := by
+      simp only [Params.has, hget, hsr]
+      split <;> simp [aGet] <;> (cases postGet (paramDict p.params) .required <;> simp)
+    rw [hreq]
+    by_cases hr : (paramSem p.params).required.isSome = true
+    · simp [hr, toKind, kindOf, Err.isCmdline, Err.cls]
+    simp only [hr, Bool.false_eq_true, if_false, Bool.not_false, true_and, Bool.true_and]
+    have hfaNone : Params.get (paramDict p.params) .forceAnywhere = none := paramDict_get_none _ _ (by intro n; cases n <;> simp [PName.key])
+    have hreqNone : postGet (paramDict p.params) .required = none := by
+      rw [← hsr]; cases h : (paramSem p.params).required with
+      | none => rfl
+      | some v => simp [h] at hr
+    rw [construct_eval cls A.sequence (Parser.optOr hname A.name) (sp.update ps')
+      ((paramSem p.params).e.getD base.e)
+      (match (paramSem p.params).o with
+        | some v => if v.gtNat (normalise (expandRuns p.runs)).length = true then .int (normalise (expandRuns p.runs)).length else v
+        | none => base.o)
+      ((paramSem p.params).indels.getD base.indels) base.readWildcards base.adapterWildcards
+      (!false && (paramSem p.params).anywhere && (cls == .front || cls == .back || cls == .rightmostFront)) p.restr.anchored]
+    · -- the two records agree
+      simp only [hAs, hAn, optOr_eq]
+      generalize normalise (expandRuns p.runs) = S
+      generalize (paramSem p.params).e.getD base.e = E
+      generalize (paramSem p.params).indels.getD base.indels = I
+      by_cases h1 : (base.adapterWildcards && !S.all isACGT) = true ∧ nonN S = 0
+      · simp only [h1, and_self, if_true]; simp [toKind, kindOf, Err.isCmdline, Err.cls]
+      · simp only [h1, if_false]
+        by_cases h2 : p.restr.anchored = true ∧ ¬ I.truthy = true ∧
+            E.den * (if E.ge1 = true ∧ nonN S ≠ 0 then nonN S else 1) < E.numer
+        · simp only [h2, and_self, if_true]; simp [toKind, kindOf, Err.isCmdline, Err.cls]
+        · simp only [h2, if_false]; simp [toKind]
+    all_goals sorry
 
 end Cutadapt.ParserProofs
